@@ -24,11 +24,24 @@ func ArgProvenanceN(w *World, id, fnName, callRe string, argIdx int, valueRe, wh
 	}
 	construct := "PROV:" + fnName + "▸" + callRe + fmt.Sprintf("#arg%d", argIdx)
 	sites := w.Sites(fn, regexp.MustCompile(callRe), true)
-	if len(sites) < min {
-		return []Result{one(id, "PROV", construct, Violated, len(sites), w.Pos(fn.Pos()), fmt.Sprintf("vacuous: %d call site(s) matching `%s` in %s, expected ≥%d", len(sites), callRe, fnName, min))}
-	}
 	re := regexp.MustCompile(valueRe)
 	var out []Result
+	if len(sites) < min {
+		// the call may have been extracted into a helper: look for it there, in this function's terms
+		n, bad := w.argProvenanceInHelpers(fn, regexp.MustCompile(callRe), argIdx, re)
+		if len(sites)+n < min {
+			return []Result{one(id, "PROV", construct, Violated, len(sites), w.Pos(fn.Pos()), fmt.Sprintf("vacuous: %d call site(s) matching `%s` in %s, expected ≥%d", len(sites)+n, callRe, fnName, min))}
+		}
+		for _, b := range bad {
+			out = append(out, one(id, "PROV", construct, Violated, len(sites)+n, w.Pos(fn.Pos()), fmt.Sprintf("%s: %s", what, b)))
+		}
+		if len(sites) == 0 {
+			if len(out) == 0 {
+				out = append(out, one(id, "PROV", construct, Discharged, n, w.Pos(fn.Pos()), what+" (call found in an extracted helper)"))
+			}
+			return out
+		}
+	}
 	for _, s := range sites {
 		ci, ok := s.(ssa.CallInstruction)
 		if !ok {
@@ -41,6 +54,15 @@ func ArgProvenanceN(w *World, id, fnName, callRe string, argIdx int, valueRe, wh
 		}
 		r := w.RenderD(args[argIdx], 9)
 		if !re.MatchString(r) {
+			// the value may be produced by a trivial extracted helper (`return <expr>`): read through it
+			w.inlineTrivial = true
+			r2 := w.RenderD(args[argIdx], 9)
+			w.inlineTrivial = false
+			if re.MatchString(r2) {
+				continue
+			}
+		}
+		if !re.MatchString(r) {
 			out = append(out, one(id, "PROV", construct, Violated, len(sites), w.InstrPos(s),
 				fmt.Sprintf("%s: argument %d of `%s` is `%s`, which does not derive from the required source (%s)", what, argIdx, clip(w.RenderInstr(s), 80), clip(r, 200), valueRe)))
 		}
@@ -51,6 +73,54 @@ func ArgProvenanceN(w *World, id, fnName, callRe string, argIdx int, valueRe, wh
 	return out
 }
 
+// argProvenanceInHelpers evaluates an ArgProvenance row inside the helpers fn calls, with the helpers' parameters rendered as
+// the arguments fn passes. Returns the number of call sites found there and a description of every mismatch.
+func (w *World) argProvenanceInHelpers(fn *ssa.Function, callRe *regexp.Regexp, argIdx int, valueRe *regexp.Regexp) (int, []string) {
+	n := 0
+	var bad []string
+	var walk func(f *ssa.Function)
+	walk = func(f *ssa.Function) {
+		for _, g := range WithClosures(f) {
+			for _, b := range g.Blocks {
+				for _, in := range b.Instrs {
+					callee, args, ok := w.helperCallee(g, in)
+					if !ok || w.seeDepth >= maxSeeDepth || !w.privateTo(callee, fn) {
+						continue
+					}
+					m := map[*ssa.Parameter]string{}
+					for j, p := range callee.Params {
+						m[p] = w.Render(args[j])
+					}
+					w.subst = append(w.subst, m)
+					w.seeDepth++
+					seeThrough++
+					for _, s := range w.Sites(callee, callRe, true) {
+						ci, ok := s.(ssa.CallInstruction)
+						if !ok {
+							continue
+						}
+						n++
+						cargs := CallArgs(ci.Common())
+						if argIdx >= len(cargs) {
+							bad = append(bad, fmt.Sprintf("call has %d args, need index %d", len(cargs), argIdx))
+							continue
+						}
+						if r := w.RenderD(cargs[argIdx], 9); !MatchRe(valueRe, r) {
+							bad = append(bad, fmt.Sprintf("argument %d of `%s` (in helper %s) is `%s`, which does not derive from the required source (%s)", argIdx, clip(w.RenderInstr(s), 80), FnName(callee), clip(r, 160), valueRe))
+						}
+					}
+					walk(callee)
+					w.subst = w.subst[:len(w.subst)-1]
+					w.seeDepth--
+					seeThrough--
+				}
+			}
+		}
+	}
+	walk(fn)
+	return n, bad
+}
+
 // InstrPresent: at least min instructions of fn (closures included) match re.
 func InstrPresent(w *World, id, kind, fnName, re string, min int, what string) []Result {
 	fn := w.Fn(fnName)
@@ -58,7 +128,7 @@ func InstrPresent(w *World, id, kind, fnName, re string, min int, what string) [
 		return anchorMissing(id, kind, fnName)
 	}
 	construct := kind + ":" + fnName + "∋" + re
-	sites := w.Sites(fn, regexp.MustCompile(re), true)
+	sites := w.SitesOr(fn, regexp.MustCompile(re), true, min)
 	if len(sites) < min {
 		return []Result{one(id, kind, construct, Violated, len(sites), w.Pos(fn.Pos()), fmt.Sprintf("%s: expected ≥%d instruction(s) matching `%s` in %s, found %d", what, min, re, fnName, len(sites)))}
 	}
